@@ -98,6 +98,20 @@ def cases(ctx):
                     steps.append(["clock", seconds])
                 steps += [["rx", REQUESTS[0] + "\n"], ["rx", REQUESTS[1] + "\n"]]
                 yield {"version": version, "steps": steps}
+    # every Config option this harness does not know, set to a non-default value: the id rules are allocator-agnostic, so
+    # they hold for whatever allocation policy an option selects
+    from ..harness import unknown_options
+
+    for extra in unknown_options():
+        for si, shape in enumerate(SHAPES):
+            for version in (None, "1.5", "2.2"):
+                if not ctx.mine():
+                    continue
+                count += 1
+                steps = shape_steps(rng, shape, via_wire=False)
+                for r in range(3):
+                    steps.append(["rx", REQUESTS[(r + si) % len(REQUESTS)] + "\n"])
+                yield {"version": version, "steps": steps, "config_extra": extra}
     ctx.exhaustive["shape-x-version-x-requests"] = count
     # random subsets, storms, faults
     for i in range(ctx.pick(150, 60000) // ctx.shard_count):
